@@ -10,6 +10,17 @@ NOTE = ("Trusted: rustc nightly's type-checked MIR (mir-opt-level=0, overflow ch
         "wrapper summaries; imprecise origins make a rule silent, never alarming.")
 
 CHECKS = {
+    "C02": dict(
+        text="Structural necessary conditions only: who-may-write on the stream's tag map (only commit adds, only consume "
+             "removes, the read window mutates nothing) and commit stores a tag only behind tag.pos() < n. The modular "
+             "range arithmetic of removal/re-basing (incl. consume(0)) is a value property and is not decided.",
+        design="§4 C02", technique="who-may-call rule + guard dominance on MIR"),
+    "C16": dict(
+        text="Structural necessary conditions: checked subtractions in the Repeat counter are discharged by dominating "
+             "guards; every finite source tests done() before any produce and never produces after done()==true "
+             "(sibling agreement); marker tags are created only under progress==0; Infinite never reports done. "
+             "Emission counts for data larger than the buffer are values and are not decided.",
+        design="§4 C16", technique="guard-fact dominance + must-pass path rules on MIR"),
     "C01": dict(
         text="Structural necessary conditions only: every write of the ring positions is dominated by the ok-edge of a "
              "real comparison of the requested count with the fill level (oversize commit/consume refused before any "
